@@ -77,3 +77,26 @@ def parse_from_template_ok(text):
     kw = dict(_TEMPLATE)
     kw['args'] = [(0, text)]
     return kw
+
+
+class Q:
+    def introspect_coalesced(self, key):
+        # P6: the same Deferred for two callers
+        d = self._inflight.get(key)
+        if d is not None:
+            return d
+        d = self.call(key)
+        d.addBoth(self._done, key)
+        self._inflight[key] = d
+        return d
+
+    def introspect_fanout(self, key):
+        waiting = self._waiting.get(key)
+        if waiting is not None:
+            d = Deferred()
+            waiting.append(d)
+            return d
+        self._waiting[key] = []
+        d = self.call(key)
+        d.addBoth(self._fanout, key)
+        return d
